@@ -27,6 +27,9 @@ type fakeRpc struct {
 	mu    sync.Mutex
 	v     rpcView
 	calls int
+	// txOutHook, when set, answers GetTxOut instead of the view (n = running number of the call); it may block
+	txOutHook func(n int) (*txwatcher.TxOutResp, error)
+	txOutN    int
 }
 
 func (f *fakeRpc) set(v rpcView) {
@@ -67,6 +70,12 @@ func (f *fakeRpc) GetBlockHash(h uint32) (string, error) {
 
 func (f *fakeRpc) GetTxOut(string, uint32) (*txwatcher.TxOutResp, error) {
 	f.mu.Lock()
+	if f.txOutHook != nil {
+		f.txOutN++
+		n, h := f.txOutN, f.txOutHook
+		f.mu.Unlock()
+		return h(n)
+	}
 	defer f.mu.Unlock()
 	f.calls++
 	if f.v.txoutErr {
